@@ -14,6 +14,23 @@ def main() -> None:
     probe_i = Instant.from_utc(2024, 2, 29, 13, 5, 7)
     offs = [Offset.from_hours_and_minutes(5, 30), Offset.from_seconds(-12345), Offset.from_hours(-7)]
 
+    def _calendars():
+        from pyoda_time import CalendarSystem
+        from pyoda_time.calendars import WeekYearRules
+
+        out = []
+        for cid in ("Hebrew Scriptural", "Hebrew Civil", "Hijri Civil-Base15", "Hijri Astronomical-Base16", "Persian Simple", "Coptic"):
+            cal = CalendarSystem.for_id(cid)
+            y = cal.min_year + 5000 if cid.startswith("Hebrew") else cal.min_year + 1400
+            for m in (1, 7, cal.get_months_in_year(y)):
+                d = LocalDate(y, m, min(15, cal.get_days_in_month(y, m)), cal)
+                iso = d.with_calendar(CalendarSystem.iso)
+                out.append([cid, y, m, cal.get_days_in_month(y, m), iso.year, iso.month, iso.day])
+        for (yy, mm, dd) in ((2012, 12, 31), (2014, 12, 29), (2024, 12, 30), (2021, 1, 3)):
+            ld = LocalDate(yy, mm, dd)
+            out.append([WeekYearRules.iso.get_week_year(ld), WeekYearRules.iso.get_week_of_week_year(ld)])
+        return out
+
     def touch():
         out = []
         for f in (lambda: [DateTimeZone.for_offset(o).id for o in offs],
@@ -28,13 +45,32 @@ def main() -> None:
                   lambda: DurationPattern.roundtrip.format(Duration.from_seconds(100000)),
                   lambda: [DateTimeZoneProviders.tzdb.get_zone_or_none(i) is not None for i in ("UTC+05:30", "UTC-03:25:45", "UTC-07")],
                   lambda: [DateTimeZoneProviders.tzdb["UTC+05:30"].id, DateTimeZoneProviders.tzdb["UTC+05:30"].get_utc_offset(probe_i).seconds],
-                  lambda: LocalDatePattern.create_with_invariant_culture("yyyy MMMM dd gg").format(LocalDate(2024, 2, 29))):
+                  lambda: LocalDatePattern.create_with_invariant_culture("yyyy MMMM dd gg").format(LocalDate(2024, 2, 29)),
+                  lambda: _calendars()):
             try:
                 out.append(f())
             except Exception as e:  # noqa: BLE001
                 out.append("exc:" + type(e).__name__)
         return out
 
+    # other first callers: a calendar first made through its factory with a plain integer, the BCL-style week rules made before the ISO one
+    for call in req.get("first_calls", []):
+        try:
+            from pyoda_time import CalendarSystem, IsoDayOfWeek
+            from pyoda_time.calendars import CalendarWeekRule, WeekYearRules
+
+            if call == "hebrew_int":
+                CalendarSystem.get_hebrew_calendar(2)
+                CalendarSystem.get_hebrew_calendar(1)
+            elif call == "bcl_rules":
+                for cwr in CalendarWeekRule:
+                    for d in IsoDayOfWeek:
+                        if d.value:
+                            WeekYearRules.from_calendar_week_rule(cwr, d)
+            elif call == "islamic_int":
+                CalendarSystem.get_islamic_calendar(1, 1)
+        except Exception:  # noqa: BLE001
+            pass
     first = req.get("first_culture")
     if first:
         before = CultureInfo.current_culture
